@@ -102,7 +102,10 @@ def jobs_C01(tier, seed):
     ts = (1, 2, 3, 4, 6) if tier == 'quick' else range(1, 7)
     cs = (1, 2, 3, 5) if tier == 'quick' else range(1, 6)
     kinds = [('path', 0, False), ('seekable', 0, False), ('seekable', 1, False), ('seekable', 3, False),
-             ('nonseekable', 0, False), ('nonseekable', 0, True), ('duck', 2, False)]
+             ('nonseekable', 0, False), ('nonseekable', 0, True), ('duck', 2, False),
+             # size supplied by a subscriber before submission (as the AWS CLI does): the
+             # library then never measures the source itself
+             ('seekable', 2, True), ('path', 0, True), ('duck', 1, True)]
     for (src, start, psize) in kinds:
         for mp in (3, 1000):
             scns = []
@@ -458,6 +461,13 @@ def jobs_C09(tier, seed):
         s = scn(copy.deepcopy(base_transfers()[name]), cfg(max_request_concurrency=2), seed=seed,
                 faults={'sites': ['body:retry', 'stream:retryable']})
         jobs.append(job(f'sched {name}', s, BD(tier)['FAULT'], want, max_execs=400000))
+    # parts of one transfer reporting progress concurrently: every point (also the body reads and
+    # the subscriber call itself) is a preemption point, aggregation threshold scaled to 2 bytes
+    for name in ('up-mp-path', 'up-mp-seekable', 'up-mp-nonseekable', 'dl-ranged-path', 'copy-mp'):
+        for thr in (2, 3):
+            s = scn(copy.deepcopy(base_transfers()[name]), cfg(max_request_concurrency=2), seed=seed,
+                    progress_threshold=thr, granularity='fine')
+            jobs.append(job(f'sched fine {name} thr={thr}', s, BD(tier)['PLAIN'], want, max_execs=400000))
     return jobs
 
 
@@ -574,6 +584,28 @@ def jobs_C13(tier, seed):
 def jobs_C16(tier, seed):
     # non-seekable destinations under C02's fault sequences
     return jobs_C02(tier, seed, want='C16', dsts=('nonseekable', 'special'))
+
+
+def jobs_C17(tier, seed):
+    """end-to-end part of C17: status timeline and first-error-wins through the real tasks"""
+    want = 'C17'
+    jobs = []
+    bt = base_transfers()
+    names = ['up-single-path', 'up-mp-nonseekable', 'dl-ranged-path', 'dl-single-path', 'copy-mp', 'copy-single', 'delete']
+    for name in names:
+        base = dict(fields=True, field_reads=False)
+        # a cancel landing anywhere, also while the final request is in flight, combined with that
+        # (or any other) request failing afterwards
+        s = scn(copy.deepcopy(bt[name]), seed=seed, inject=[{'kind': 'cancel', 'target': 0}],
+                faults={'sites': ['s3:', 'stream:fatal', 'fs:write', 'fs:rename']}, **base)
+        jobs.append(job(f'cancel+fault {name}', s, BD(tier)['CANCELFAULT'], want, max_execs=400000))
+        s = scn(copy.deepcopy(bt[name]), seed=seed, inject=[{'kind': 'cancel', 'target': 0}], **base)
+        jobs.append(job(f'cancel {name}', s, BD(tier)['CANCEL'] if name in names[:3] else {'inject': 1, 'sched': 0}, want, max_execs=400000))
+        # two failures: the first recorded wins
+        s = scn(copy.deepcopy(bt[name]), cfg(max_request_concurrency=2), seed=seed,
+                faults={'sites': ['s3:', 'stream:fatal', 'fs:write']}, **base)
+        jobs.append(job(f'two faults {name}', s, BD(tier)['FAULT2'], want, max_execs=400000))
+    return jobs
 
 
 def jobs_C18(tier, seed):
